@@ -298,9 +298,10 @@ class VerticaCreateQueryBuilder(CreateQueryBuilder):
         self._preserve_rows = True
 
     def _create_table_sql(self, **kwargs: Any) -> str:
-        return "CREATE {local}{temporary}TABLE {table}".format(
+        return "CREATE {local}{temporary}TABLE {if_not_exists}{table}".format(
             local="LOCAL " if self._local else "",
             temporary="TEMPORARY " if self._temporary else "",
+            if_not_exists="IF NOT EXISTS " if self._if_not_exists else "",
             table=self._create_table.get_sql(**kwargs),
         )
 
